@@ -117,6 +117,15 @@ func gen(tier string) []proto.Item {
 				items = append(items, proto.Item{Scn: s, Class: cls + "/burst-at-deadline", Note: map[string]string{"extra": "2000"}})
 			}
 		}
+		// the destination's first answer arrives late - after the last probe has gone out, inside the listening window: the
+		// run still ends within the bound computed from its parameters (an answer does not buy more time)
+		for _, cfg := range cfgs {
+			for _, late := range []int{cfg[0] * 1000 / 2, cfg[0]*1000 - 10000, cfg[0] * 1000} {
+				s := proto.Scn{Variant: v, First: 1, Last: 4, Dest: 3, IPIDBase: 800, EchoBase: 80, TimeoutMs: cfg[0], DelayMs: cfg[1]}
+				s.Hops = map[int]proto.HopSpec{3: {DelayUs: late}, 4: {DelayUs: late}}
+				items = append(items, proto.Item{Scn: s, Class: fmt.Sprintf("%s/r1-4/t%d-d%d/destination-answers-late-%dms", v, cfg[0], cfg[1], late/1000), Note: map[string]string{"extra": "0"}})
+			}
+		}
 		if vi.Kind == "sack" {
 			// the handshake is never captured while SYN-ACKs of other connections keep arriving
 			for _, every := range []int{100, 400, 499} {
